@@ -32,6 +32,7 @@ fn parse_mode(s: &str) -> Mode {
         "Eager" => Mode::Read(Api::Eager),
         "Lazy" => Mode::Read(Api::Lazy),
         "Alt" => Mode::Read(Api::Alt),
+        "QueryData" => Mode::QueryData,
         _ => Mode::Query,
     }
 }
@@ -54,10 +55,22 @@ fn replay_payload(plan: &'static Plan, p: &Value) -> Result<(), (String, String)
                     }
                 } else {
                     let format = parse_format(p2["format"].as_str().unwrap_or("")).unwrap_or(Format::Bgzf);
+                    let set = p2["set"].as_str().unwrap_or("").to_string();
                     let mode = parse_mode(p2["mode"].as_str().unwrap_or(""));
                     let bed_n = p2["bed_n"].as_u64().unwrap_or(3) as usize;
-                    let data = p2["data"].as_str();
-                    cases::exec_doc(&plan.docs, format, mode, bed_n, data, &input).map(|(_, ok)| format!("ok={ok}"))
+                    let raw = p2["raw"].as_bool().unwrap_or(false);
+                    let other = if p2["other"].is_object() {
+                        Some(cases::Other {
+                            format: parse_format(p2["other"]["format"].as_str().unwrap_or("")).unwrap_or(Format::Bgzf),
+                            set: p2["other"]["set"].as_str().unwrap_or("").to_string(),
+                            name: p2["other"]["name"].as_str().unwrap_or("").to_string(),
+                            bytes: std::sync::Arc::new(cases::hex(p2["other"]["hex"].as_str().unwrap_or(""))),
+                        })
+                    } else {
+                        // replay files written before the query stages carried only the data document's name
+                        p2["data"].as_str().and_then(|n| plan.docs.iter().find(|d| d.name == n)).map(|d| cases::Other { format: d.format, set: d.set.clone(), name: d.name.clone(), bytes: d.bytes.clone() })
+                    };
+                    cases::exec_doc(format, &set, mode, bed_n, raw, other.as_ref(), &input).map(|(_, ok)| format!("ok={ok}"))
                 }
             });
             match r {
